@@ -345,3 +345,16 @@ silent("benign-data-fit-rename", ALL, T + "data_fit.py",
        "            key, subkey = jr.split(key)\n            loss_i = loss_fn(params, static, *batch, key=subkey)\n            batch_losses.append(loss_i)",
        "            key, val_key = jr.split(key)\n            val_loss = loss_fn(params, static, *batch, key=val_key)\n            batch_losses.append(val_loss)")
 silent("benign-exp-sum-spelling", ALL, B + "exp.py", "        return jnp.exp(x), x.sum()", "        y = jnp.exp(x)\n        return y, jnp.sum(x)")
+
+# ------------------------------------------------------------------------- C01.pair
+fire("c01-affine-inverse-consistently-wrong", "C01", B + "affine.py",
+     "        return (y - self.loc) / self.scale\n\n    def inverse_and_log_det(self, y, condition=None):\n        return (y - self.loc) / self.scale,",
+     "        return (y - self.loc) * self.scale\n\n    def inverse_and_log_det(self, y, condition=None):\n        return (y - self.loc) * self.scale,", "C01.pair")
+fire("c01-softplus-inverse-wrong", "C01", B + "softplus.py", "        return jnp.log(-jnp.expm1(-y)) + y", "        return jnp.log(jnp.expm1(-y)) + y", "C01.pair")
+fire("c01-leaky-inverse-threshold", ["C01"], B + "tanh.py",
+     "        is_linear = jnp.abs(y) >= jnp.tanh(self.max_val)\n        x_linear", "        is_linear = jnp.abs(y) >= self.max_val\n        x_linear", "C01.pair")
+fire("c01-permute-inverse-same-index", "C01", B + "utils.py", "        return y[self.inverse_permutation]\n\n    def inverse_and_log_det(self, y, condition=None):\n        return y[self.inverse_permutation],",
+     "        return y[self.permutation]\n\n    def inverse_and_log_det(self, y, condition=None):\n        return y[self.permutation],", "C01.pair")
+fire("c01-triangular-solve-upper", "C01", B + "affine.py",
+     "        return solve_triangular(self.triangular, y - self.loc, lower=self.lower)\n\n    def inverse_and_log_det(self, y, condition=None):\n        x = solve_triangular(self.triangular, y - self.loc, lower=self.lower)",
+     "        return solve_triangular(self.triangular, y + self.loc, lower=self.lower)\n\n    def inverse_and_log_det(self, y, condition=None):\n        x = solve_triangular(self.triangular, y + self.loc, lower=self.lower)", "C01.pair")
